@@ -233,6 +233,9 @@ func genC19(r *Rng, tier string) *World {
 	c.PDef = Pick(r, []float64{0.4, 0.7})
 	c.PCatch = Pick(r, []float64{0.1, 0.3})
 	c.PPT = Pick(r, []float64{0.3, 0.6})
+	c.PPTErr = Pick(r, []float64{0, 0.25})
+	c.Opts = r.P(0.5)
+	c.PCustomT = Pick(r, []float64{0.2, 0.5})
 	c.PAbsent = Pick(r, []float64{0.3, 0.5})
 	if !c.has("slice") {
 		c.Kinds = append(c.Kinds, "slice")
@@ -272,6 +275,7 @@ func genC19(r *Rng, tier string) *World {
 			op.Input = v
 		}
 		op.Rev = r.P(0.3)
+		op.Collect = Pick(r, []string{"", "", "CollectMap", "SanitizeMapAndCollect"})
 		return op
 	}
 	if r.P(0.25) {
@@ -364,7 +368,9 @@ func runC19(x *X) *Violation {
 		return nil
 	}
 	x.E.Owned = nil
+	paramsOwner = func(m map[string]any) { x.E.Owned = append(x.E.Owned, Owned{"params", -1, m}) }
 	x.BuildSchemas()
+	paramsOwner = nil
 	root := x.Built[0].N
 	owned0 := ownedSnapshot(x.E)
 	fp0 := x.fingerprints()
@@ -542,6 +548,15 @@ func runC19(x *X) *Violation {
 			}
 		}
 		seen = append(seen, seenRes{key, res, "o" + strconv.Itoa(i) + "/"})
+		snap := *res
+		snap.Issues, snap.First = res.Snapshot(), res.First
+		seen[len(seen)-1].res = &snap
+		if op.Collect != "" {
+			x.Collect("0:"+strconv.Itoa(i), op.Collect, res)
+			if v := checkSchema(fmt.Sprintf("after %s of call %d", op.Collect, i)); v != nil {
+				return v
+			}
+		}
 		for _, c := range res.Calls {
 			if c.Kind == "pt" {
 				mutated = true
